@@ -423,6 +423,7 @@ structure Acc where
   v19 : Verdict
   v20 : Verdict
   v14 : Verdict := .na
+  v03 : Verdict := .na
 
 def runCase (c : Case) (secs : List (String × List String)) : Acc :=
   let idx := List.range c.steps.length
@@ -445,20 +446,21 @@ def runCase (c : Case) (secs : List (String × List String)) : Acc :=
       v09 := acc.v09.both (c09 ctxJ acc.prevFailed ob),
       v19 := acc.v19.both (c19 ctxJ ob),
       v20 := acc.v20.both (c20 ctxJ ob),
-      v14 := acc.v14.both (c14 ctxJ ob) })
+      v14 := acc.v14.both (c14 ctxJ ob),
+      v03 := acc.v03.both (c03 ctxJ ob) })
     { fs := initialFS c, outs := [], prevFailed := [], v09 := .na, v19 := .na, v20 := .na }
 
 def handle (line : String) : String :=
   match line.splitOn " | " with
   | [inp, impl] =>
     match parseCase inp with
-    | none => "BAD-CASE || C09=FAIL C19=FAIL C20=FAIL C14=FAIL"
+    | none => "BAD-CASE || C09=FAIL C19=FAIL C20=FAIL C14=FAIL C03=FAIL"
     | some c =>
       let secs := sectionsOf impl
       let acc := runCase c secs
       let j (f : StepOut → String) := " / ".intercalate (acc.outs.map f)
       s!"EXIT {j (·.exit)} ; NAMED {j (·.named)} ; WR {j (·.wr)} ; OUT {j (·.out)} ; JS {j (·.js)} ; OM {j (·.om)} ; TR {j (·.tr)} ; VR {j (·.vr)} ; EM {j (·.em)}" ++
-      s!" || C09={acc.v09.str} C19={acc.v19.str} C20={acc.v20.str} C14={acc.v14.str}"
-  | _ => "BAD-LINE || C09=FAIL C19=FAIL C20=FAIL C14=FAIL"
+      s!" || C09={acc.v09.str} C19={acc.v19.str} C20={acc.v20.str} C14={acc.v14.str} C03={acc.v03.str}"
+  | _ => "BAD-LINE || C09=FAIL C19=FAIL C20=FAIL C14=FAIL C03=FAIL"
 
 end Spok.Oracle.Cli
